@@ -3,6 +3,7 @@
 package main
 
 import (
+	"fmt"
 	"go/ast"
 	"go/parser"
 	"go/token"
@@ -492,6 +493,74 @@ func facts() map[string]any {
 	for _, fn := range []string{"ServeRaw", "ServeRawInline", "ServeRawReplay"} {
 		out["carrier_reset_in_"+strings.ToLower(fn)] = countCalls(srv.method("Server", fn), "reset")
 	}
+
+	// --- replies that a transport may keep: built in storage of their own
+	// CancelWithRcode: the reply is `new(dns.Msg)`, never the address of a chain field
+	cwr := mw.method("Chain", "CancelWithRcode")
+	cwrNew, cwrChainAddr := false, false
+	if cwr != nil {
+		ast.Inspect(cwr.Body, func(x ast.Node) bool {
+			switch v := x.(type) {
+			case *ast.CallExpr:
+				if id, ok := v.Fun.(*ast.Ident); ok && id.Name == "new" {
+					cwrNew = true
+				}
+			case *ast.UnaryExpr:
+				if v.Op == token.AND {
+					if _, ok := rootField(v.X, recvName(cwr)); ok {
+						cwrChainAddr = true
+					}
+				}
+			}
+			return true
+		})
+	}
+	out["cancelwithrcode_allocates_reply"] = cwrNew && !cwrChainAddr
+	// views.ServeDNS: every record appended to an answer list is a dns.Copy of the configured one
+	vw := parseDir("middleware/views")
+	copied := map[string]bool{}
+	viewsShared := []string{}
+	if m := vw.method("Views", "ServeDNS"); m != nil {
+		ast.Inspect(m.Body, func(x ast.Node) bool {
+			if as, ok := x.(*ast.AssignStmt); ok && len(as.Lhs) == 1 && len(as.Rhs) == 1 {
+				if c, ok := as.Rhs[0].(*ast.CallExpr); ok {
+					if sel, ok := c.Fun.(*ast.SelectorExpr); ok && sel.Sel.Name == "Copy" {
+						if id, ok := as.Lhs[0].(*ast.Ident); ok {
+							copied[id.Name] = true
+						}
+					}
+				}
+			}
+			return true
+		})
+		ast.Inspect(m.Body, func(x ast.Node) bool {
+			if c, ok := x.(*ast.CallExpr); ok {
+				if id, ok := c.Fun.(*ast.Ident); ok && id.Name == "append" && len(c.Args) >= 2 {
+					if dst, ok := c.Args[0].(*ast.Ident); ok && (dst.Name == "exact" || dst.Name == "wild") {
+						for _, a := range c.Args[1:] {
+							if aid, ok := a.(*ast.Ident); !ok || !copied[aid.Name] {
+								viewsShared = append(viewsShared, fmt.Sprint(dst.Name))
+							}
+						}
+					}
+					// wild = append(wild[:0], cp)
+					if sl, ok := c.Args[0].(*ast.SliceExpr); ok {
+						if dst, ok := sl.X.(*ast.Ident); ok && dst.Name == "wild" {
+							for _, a := range c.Args[1:] {
+								if aid, ok := a.(*ast.Ident); !ok || !copied[aid.Name] {
+									viewsShared = append(viewsShared, "wild")
+								}
+							}
+						}
+					}
+				}
+			}
+			return true
+		})
+	} else {
+		viewsShared = append(viewsShared, "ServeDNS-not-found")
+	}
+	out["views_answers_not_copied"] = viewsShared
 
 	// --- capacity pinning shapes
 	out["beginwire_pins_capacity"] = hasFullSliceExpr(mw.method("responseWriter", "BeginWire"), "need")
